@@ -11,10 +11,10 @@ import (
 // value universes (small on purpose: matches, near misses and ties must be frequent)
 // ---------------------------------------------------------------------------------------------
 
-var UStr = []string{"", "a", "A", "ab", "aB", "b", "Bob", "bob", "10", "9", "3", "3.5", "x y", "-1"}
+var UStr = []string{"", "a", "A", "ab", "aB", "b", "Bob", "bob", "10", "9", "3", "3.5", "x y", "-1", "2500000.5", "0.00005"}
 var UInt = []int64{0, 1, 2, 3, 9, 10, -1, -7, 1 << 40, math.MaxInt32 + 1, 1<<53 + 1, math.MaxInt64, math.MinInt64 + 1}
 var UInt32 = []int64{0, 1, 2, 3, 9, 10, -1, math.MaxInt32, math.MinInt32}
-var UFloat = []float64{0, 0.5, 1, 2.5, 3, 3.5, 10, -1.5, 1e3, 1e-3, 9007199254740992}
+var UFloat = []float64{0, 0.5, 1, 2.5, 3, 3.5, 10, -1.5, 1e3, 1e-3, 9007199254740992, 2500000.5, 0.00005}
 var UTime = []string{"2020-01-01T00:00:00Z", "2020-01-01T01:00:00+01:00", "2020-01-01T00:00:00.000000001Z", "2021-06-15T12:30:00.5Z", "1999-12-31T23:59:59-05:00", "1960-02-29T10:00:00Z"}
 var URole = []string{"", "a", "b", "Bob", "r", "R", "10", "3"}
 var UNum = []string{"1", "3", "10", "9", "3.5", "-1", "007"}
@@ -151,6 +151,9 @@ func GenDataset(t *rapid.T, maxPeople, maxPlaces int) *Dataset {
 						p.SubTags[k] = genTagVal(t, l+"_subtagv_"+k, k)
 					}
 				}
+				if len(p.SubTags) > 0 && chance(t, l+"_deeptags", 50) {
+					p.DeepTags = map[string]Val{"k": genTagVal(t, l+"_deeptagv_k", "k")}
+				}
 			}
 		}
 		d.People = append(d.People, p)
@@ -189,7 +192,7 @@ type symSpec struct {
 
 var peopleScalars = []symSpec{{"id", "s"}, {"sa", "s"}, {"sb", "s"}, {"ia", "i"}, {"ib", "i"}, {"fa", "f"}, {"ba", "b"}, {"ta", "t"}, {"boss", "s"}, {"home", "s"}}
 var peopleDottedScalars = []symSpec{{"boss.sa", "s"}, {"boss.ia", "i"}, {"boss.fa", "f"}, {"boss.ba", "b"}, {"boss.ta", "t"}, {"home.name", "s"}, {"home.n", "i"}, {"boss.boss.sa", "s"}, {"boss.home.name", "s"}, {"boss.boss", "s"}}
-var peopleMapScalars = []symSpec{{"tags.k", "any"}, {"tags.n", "any"}, {"tags.s", "any"}, {"tags.missing", "any"}, {"tags.sub.k", "any"}, {"tags.sub.n", "any"}}
+var peopleMapScalars = []symSpec{{"tags.k", "any"}, {"tags.n", "any"}, {"tags.s", "any"}, {"tags.missing", "any"}, {"tags.sub.k", "any"}, {"tags.sub.n", "any"}, {"tags.sub.deep.k", "any"}}
 var peopleDottedMaps = []symSpec{{"boss.tags.k", "any"}}
 var peopleSetsDirect = []symSpec{{"roles", "s"}, {"nums", "s"}, {"places", "s"}, {"peers", "s"}}
 var peopleSetsDotted = []symSpec{{"places.name", "s"}, {"places.n", "i"}, {"places.businesses", "s"}, {"boss.roles", "s"}, {"boss.places", "s"}, {"boss.places.name", "s"}, {"places.people", "s"}, {"places.people.sa", "s"}, {"places.people.ia", "i"}, {"peers.sa", "s"}, {"peers.roles", "s"}, {"peers.boss.sa", "s"}, {"peers.home.name", "s"}, {"places.people.boss.ia", "i"}, {"boss.peers.boss.sa", "s"}, {"peers.peers.sa", "s"}, {"peers.boss.roles", "s"}, {"peers.boss.boss.sa", "s"}, {"peers.boss.tags.k", "any"}, {"places.people.peers.home.name", "s"}}
